@@ -22,7 +22,7 @@ for s in sorted(os.listdir(SD)):
     for (p, tier), r in sorted(res.get(s, {}).items()):
         det.append({'check': './check %s --tier %s (VERIF_REPO=scratch worktree with the change applied)' % (p, tier), 'exit': r['rc'],
                     'violations': r['n_viol'], 'first_obligations': [os.path.basename(v).split('.json')[0] for v in r['violations'][:4]], 'wall_s': r['wall_s']})
-    meta = {'seed': s, 'property_broken': s.split('-')[0], 'files_touched': files,
+    meta = {'seed': s, 'property_broken': re.match(r'C\d+', s).group(0), 'files_touched': files,
             'produced_by': 'independent sub-agent given only the property text and a scratch worktree of /repo (nothing from /verif)',
             'what_it_needs_to_manifest': needs or notes[:900],
             'confirmation': {'what_i_ran': 'tools/confirm_seed.sh: patch applied to a scratch worktree of /repo HEAD; strict -Werror compile of both library files; full cmake/ctest suite (3979 tests); demo.c built and run with and without the change', 'result': conf},
